@@ -720,6 +720,13 @@ impl Element {
     ///  - [`AutosarDataError::ElementNotFound`]: The sub element was not found in this element
     ///  - [`AutosarDataError::ShortNameRemovalForbidden`]: It is not permitted to remove the SHORT-NAME of identifiable elements since this would result in invalid data
     pub fn remove_sub_element(&self, sub_element: Element) -> Result<(), AutosarDataError> {
+        if *self == sub_element {
+            // an element is never its own sub element; it must not be locked twice below
+            return Err(AutosarDataError::ElementNotFound {
+                target: self.element_name(),
+                parent: self.element_name(),
+            });
+        }
         let model = self.model()?;
         self.0.write().remove_sub_element(sub_element, &model)
     }
